@@ -47,6 +47,9 @@ static std::string gen_meta() {
   for (int i = 0; i < n; i++) {
     m += ":" + vf::strover("abk", 1, 4) + std::string(1, '\0');
     if (vf::coin()) m += "=" + vf::strover("ab 01:=", 0, 6) + std::string(1, '\0');
+    // a further string behind the entry that starts no new one (a documentation value continued in a second string, the
+    // bare string of rSpecial): part of the block's bytes all the same
+    if (vf::chance(15)) m += std::string(1, "ab 01"[vf::pickn(5)]) + vf::strover("ab 01", 0, 5) + std::string(1, '\0');
   }
   return m;
 }
@@ -96,6 +99,8 @@ Case vf_generate() {
     }
     c.location = a;
   }
+  // a location may be given without the leading '/' (the lookup skips it when it is there)
+  if (c.location.size() > 1 && c.location[0] == '/' && vf::chance(30)) c.location.erase(0, 1);
   c.needle = vf::chance(40) ? "" : vf::strover("abc", 0, 2);
   c.opt = vf::pickn(3);
   c.with_query = vf::coin();
@@ -162,7 +167,7 @@ static std::string run_search(const Case &c, vf::Ctx &ctx) {
   if (c.location.empty() || c.location == "/") { children = &c.tree.tables[0]; ctable = 0; }
   else {
     // descend by the generated location (it was built from sub-tree names; each component ends with '/')
-    std::string rest = c.location.substr(1);
+    std::string rest = c.location[0] == '/' ? c.location.substr(1) : c.location;   // with or without the leading slash
     int table = 0;
     while (true) {
       const pt::PTable &tb = c.tree.tables[(size_t)table];
